@@ -1,5 +1,6 @@
-"""C01vm — VM-level theorem of C01: compile-correctness of the bytecode compiler + backtracking VM for
-fragment F (docs/C01vm.md).  Extra check contributing to C01."""
+"""C01vm — VM-level theorem of C01: compile-correctness of the bytecode compiler (incl. optimizeTailRec and
+optimizeCodeOps) + backtracking frame VM for fragment F2 (closures, functions, parameters, recursion; docs/C01vm.md).
+Extra check contributing to C01 (and to C04 for the two optimisation passes)."""
 import json, os, re, sys
 import verif as V
 
@@ -36,17 +37,26 @@ def run(tier, seed):
     c = V.Check(PROP, tier, seed, evidence_name="C01vm")
     c.assumptions += [
         "natives (funcIndex2, opiter's enumeration of a value, error/length, the 8 binary operators) are total "
-        "functions value -> value + error; the theorem quantifies over all of them; the executable correspondence "
-        "instantiates them for integers, ASCII strings, arrays, objects (coq/c01vm/Natives.v)",
-        "data/scope/fork stacks are persistent lists (stack.go's array stacks refine lists: C01 Stack.refines, other slice)",
-        "env.expdepth, env.paths, env.offset and context polling are not modelled (unobservable in F: the paths stack is "
-        "always empty, there is one frame)",
+        "functions value -> value + error; the theorems quantify over all of them; the executable correspondence "
+        "instantiates them for integers, ASCII strings, arrays, objects (coq/c01vm2/Natives.v)",
+        "data/scope/fork stacks are persistent lists; popscope's `free := index > limit` is stated at list level with a "
+        "ghost push counter (frames and forks carry the counter value at their creation); the array-level refinement is "
+        "coq/vm/StackProofs.v Stack_refines (other slice), cited, not imported",
+        "env.expdepth, env.paths and context polling are not modelled (unobservable in the fragment: the paths stack is "
+        "always empty; path(p) is outside the fragment, docs/C01vm.md Step 4)",
         "error message texts are not compared (projected away by the property); generated handlers never observe a "
         "message text; ValueError payloads of `error` are compared exactly",
-        "the correspondence ties Compile.v to compiler.go per sampled program (exact instruction list incl. peephole) "
-        "and VM.v/Den.v to execute.go per sampled (program, input)",
-        "optimizeCodeOps is modelled twice: as array updates (literal transcription) and as a right fold (the version the "
-        "theorems are about); the model checks on every sampled program that both coincide",
+        "the correspondence ties Compile.v to compiler.go per sampled program (exact instruction list of the final code, "
+        "incl. optimizeTailRec and optimizeCodeOps) and VM.v/Den.v to execute.go per sampled (program, input); the "
+        "denotation is run with fuel 400 (calls nested deeper than that are not generated)",
+        "optimizeCodeOps is modelled twice (array updates = literal transcription; right fold = the version the theorems "
+        "are about) and optimizeTailRec twice (Compile.tailrec = the Go scan; Compile.compg true = the compiler with the "
+        "pass built in, the version the theorems are about); the model checks on every sampled program that the two "
+        "versions coincide and that the side conditions of the peephole theorem hold (they are also proved)",
+        "fragment restrictions (programs outside are not generated): a function body / an argument closure of a "
+        "user-defined function sees no label of its context; a call of the enclosing parameterless function in the "
+        "right side of //, a catch handler, the extract part of foreach or a label body (tail positions for the Go scan "
+        "that the theorem does not cover)",
     ]
     proved = c.prove(PROPS)
     exe_h, hlog = V.build_harness("c01vm2")
@@ -108,7 +118,8 @@ def run(tier, seed):
             kind = "instruction-list" if line.startswith("(code ") else "vm-model"
             c.broken_correspondence(kind, line, "model: " + verdict[:2000])
             reported += 1
-    rule = ("programs of fragment F: every AST with <= 3 nodes (4 in the thorough tier) over a small leaf set x all 12 "
+    rule = ("programs of fragment F2 (closures, definitions, filter/$value parameters, recursion templates incl. tail "
+            "calls): every AST with <= 3 nodes (4 in the thorough tier) over a small leaf set x all 12 "
             "inputs, a random sample of the next size, and random ASTs of 3..60 nodes x 4 inputs; per program one "
             "instruction-list comparison (implementation vs Compile.compile, exact) and per (program, input) a 3-way "
             "comparison implementation / VM model (raw and peepholed code) / den; distinct = distinct case lines")
